@@ -35,8 +35,9 @@ def _concrete(x):
 def _ensure(cond, name):
   """icontract.ensure with a named condition, or a minimal shim if unavailable."""
   if HAVE_ICONTRACT:
-    return icontract.ensure(cond, description=name,
-                            error=lambda **kw: ContractBroken("postcondition %s violated" % name))
+    def _err():
+      return ContractBroken("postcondition %s violated" % name)
+    return icontract.ensure(cond, description=name, error=_err)
 
   def deco(fn):
     import functools
